@@ -345,6 +345,97 @@ class GGenBT:
         return rules
 
 
+class GGenSW:
+    """switch-shaped grammars: choices with three or more alternatives that all consume, whose first
+    characters are mostly distinct (single characters, ranges, classes, literals, rule references,
+    captures, nested choices), with some overlapping alternatives so that part of the choice stays ordered"""
+    LETTERS = [97, 98, 99, 100, 101, 102, 103, 104]
+
+    def __init__(self, rng):
+        self.rng = rng
+        self.nact = 0
+        self.nrules = rng.randint(2, 5)
+        self.names = ["R%d" % i for i in range(self.nrules)]
+        self.nullable = set()
+        self.cur = None
+
+    def head(self, rank):
+        r = self.rng
+        c = r.random()
+        L = self.LETTERS
+        if c < 0.35:
+            return ("chr", r.choice(L))
+        if c < 0.5:
+            lo = r.choice(L[:-1])
+            return ("cls", False, False, [("r", lo, min(lo + r.randint(1, 3), 104))])
+        if c < 0.6:
+            return ("cls", False, r.random() < 0.3, [("c", r.choice(L)), ("c", r.choice(L))])
+        if c < 0.7:
+            return ("str", [r.choice(L) for _ in range(2)])
+        if c < 0.75:
+            return ("istr", [r.choice(L)])
+        if c < 0.9 and rank > 0:
+            cand = [n for n in self.names[:rank] if n not in self.nullable]
+            if cand:
+                return ("name", r.choice(cand))
+        if c < 0.95:
+            return ("push", ("chr", r.choice(L)))
+        return ("dot",) if r.random() < 0.3 else ("plus", ("chr", r.choice(L)))
+
+    def tail(self, rank):
+        r = self.rng
+        c = r.random()
+        if c < 0.3:
+            return []
+        if c < 0.5:
+            return [("chr", r.choice(self.LETTERS))]
+        if c < 0.6:
+            self.nact += 1
+            return [("act", self.nact - 1)]
+        if c < 0.75:
+            return [("q", ("chr", r.choice(self.LETTERS))), ("name", self.names[r.randrange(self.nrules)])] if r.random() < 0.4 else [("star", ("chr", r.choice(self.LETTERS)))]
+        if c < 0.85:
+            return [(r.choice(["and", "not"]), ("chr", r.choice(self.LETTERS)))]
+        return [("name", self.names[r.randrange(self.nrules)])] if r.random() < 0.5 else [("chr", r.choice(self.LETTERS)), ("chr", r.choice(self.LETTERS))]
+
+    def choice(self, rank, depth):
+        r = self.rng
+        alts = []
+        for _ in range(r.randint(3, 6)):
+            h = self.head(rank)
+            if depth > 0 and r.random() < 0.15:
+                h = self.choice(rank, depth - 1)
+            items = [h] + self.tail(rank)
+            if r.random() < 0.1:
+                items = [("act", self._act())] + items if False else items
+            alts.append(("seq", items) if len(items) > 1 else h)
+        if r.random() < 0.12 and depth == 1:
+            alts.append(("nil",))
+            self.nullable.add(self.cur)
+        return ("alt", alts)
+
+    def _act(self):
+        self.nact += 1
+        return self.nact - 1
+
+    def grammar(self):
+        r = self.rng
+        rules = []
+        for i, nm in enumerate(self.names):
+            self.cur = nm
+            body = self.choice(i, 1)
+            w = r.random()
+            if w < 0.25 and nm not in self.nullable:
+                body = ("plus", body)
+            elif w < 0.35:
+                body = ("seq", [("push", body), ("act", self._act())])
+            rules.append((nm, body))
+        nm, body = rules[-1]
+        refs = [("q", ("seq", [("chr", 0x77), ("name", n)])) for n in self.names[:-1]]
+        top = ("seq", [("star", ("seq", [("name", self.names[-1]), ("chr", 0x76)]))] + refs + [("not", ("dot",))])
+        return [("S", top)] + rules
+
+
 def sample_from(rng, rules, e, depth=0):
     """a rune list the expression might match (ignores lookahead and predicates)"""
     t = e[0]
